@@ -298,6 +298,8 @@ class Body:
                 return ('fnref', callee_id(c['fn'], self.crate))
             if 'v' in c:
                 return ('const', int(c['v']))
+            if 'str' in c:
+                return ('str', c['str'])
             if 'def' in c:
                 return ('constdef', canon(c['def'], self.crate))
             if 'closure' in c:
@@ -596,6 +598,8 @@ def show(e, depth=0):
         return e[2]
     if k == 'const':
         return str(e[1])
+    if k == 'str':
+        return '\u27ea%s\u27eb' % e[1]
     if k in ('constdef', 'closure', 'constx', 'fnref'):
         return short(e[1])
     if k == 'field':
